@@ -103,6 +103,13 @@ CallFn(kind, args, env, log) ==
   CASE kind = "id" -> IF Len(args) = 1 THEN Ok(args[1], log) ELSE Err(log)
     [] kind = "boom" -> Err(log)
     [] kind = "noret" -> Ok(Unset, log)
+    \* host functions registered through the converting registration with parameters of NAMED
+    \* string / bool / int types: typed identities (wrong type or count: error, never a panic)
+    [] kind = "idstr" -> IF Len(args) = 1 /\ IsStr(args[1]) THEN Ok(args[1], log) ELSE Err(log)
+    [] kind = "idbool" -> IF Len(args) = 1 /\ IsBool(args[1]) THEN Ok(args[1], log) ELSE Err(log)
+    [] kind = "idint" -> IF Len(args) # 1 \/ ~IsNum(args[1]) THEN Err(log)
+                         ELSE IF IsSpecial(args[1]) \/ args[1].d # 1 THEN Oos(log)     \* conversion of non-integers: not modelled
+                         ELSE Ok(args[1], log)
     [] kind = "visited" ->
          IF Len(args) # 1 \/ ~IsStr(args[1]) THEN Err(log)
          ELSE Ok(Bool(args[1].s \in env.nodes /\ env.visits[args[1].s] > 0), log)
